@@ -13,8 +13,9 @@
 (* Actions = the steps of the code:                                        *)
 (*   Scan   getMinAndMaxTimestamps over the whole input (rejects an input  *)
 (*          with a sample without timestamp), then the alignment of mint   *)
-(*          in createBlocks: `mint = blockDuration * (mint / blockDuration)`*)
-(*          -- Go division truncates toward zero, transcribed as TruncDiv  *)
+(*          in createBlocks to the start of its block range: the floor,     *)
+(*          spelled out for negative values because Go division truncates  *)
+(*          (fixed by a01d00d164; before, TruncDiv was used: KF-C50-1)     *)
 (*   Iter   one iteration of `for t := mint; t <= maxt; t += blockDuration`:*)
 (*          skipped when the next known sample lies beyond this window,    *)
 (*          otherwise the input is parsed again, samples of [t, t+D) go to *)
@@ -43,8 +44,10 @@ Sample == [s : Series, ts : TsDom, v : Vals]
 
 MinOf(S) == CHOOSE x \in S : \A y \in S : x <= y
 MaxOf(S) == CHOOSE x \in S : \A y \in S : x >= y
-\* Go integer division
+\* Go integer division (truncates toward zero)
 TruncDiv(a, b) == IF a >= 0 THEN a \div b ELSE 0 - ((0 - a) \div b)
+\* createBlocks: `if mint >= 0 { bd*(mint/bd) } else { bd*((mint-bd+1)/bd) }`
+AlignDown(a, b) == IF a >= 0 THEN b * TruncDiv(a, b) ELSE b * TruncDiv(a - b + 1, b)
 \* the aligned window a timestamp belongs to (floor)
 Window(ts) == ts \div D
 
@@ -85,9 +88,9 @@ Scan ==
           /\ UNCHANGED <<mint, maxt, t>>
      ELSE LET lo == IF inp = {} THEN 0 ELSE MinOf({x.ts : x \in inp})
               hi == IF inp = {} THEN 0 ELSE MaxOf({x.ts : x \in inp}) IN
-          /\ mint' = D * TruncDiv(lo, D)
+          /\ mint' = AlignDown(lo, D)
           /\ maxt' = hi
-          /\ t' = D * TruncDiv(lo, D)
+          /\ t' = AlignDown(lo, D)
           /\ pc' = "loop"
   /\ UNCHANGED <<inp, missing, nextTs, blocks>>
 
@@ -117,15 +120,15 @@ Spec == Init /\ [][Next]_vars /\ WF_vars(Start \/ Scan \/ Iter \/ Finish)
 (* C50 on the design                                                        *)
 Range(q) == {q[i] : i \in 1..Len(q)}
 
-\* Known finding KF-C50-1: a negative minimum timestamp that is not a multiple of the block duration is
-\* aligned upwards (truncating division), the windows below the rounded start are never visited and
-\* their samples are silently missing from the output.
-KF_C50_1 == inp # {} /\ MinOf({x.ts : x \in inp}) < 0 /\ MinOf({x.ts : x \in inp}) % D # 0
+\* Inputs whose minimum timestamp is negative and not a multiple of the block duration: the case that
+\* finding KF-C50-1 (fixed by a01d00d164) was about -- the start was aligned upwards by truncating division
+\* and the samples below it were silently left out. Kept as a coverage class.
+NegativeUnaligned == inp # {} /\ MinOf({x.ts : x \in inp}) < 0 /\ MinOf({x.ts : x \in inp}) % D # 0
 
-\* the blocks written are exactly the partition of the input by aligned window
-ExactlyInput == pc = "done" => (Range(blocks) = Partition(inp) \/ KF_C50_1)
-\* without the excuse whenever the finding does not apply
-ExactWhenNonNegative == (pc = "done" /\ ~KF_C50_1) => (Range(blocks) = Partition(inp) /\ Len(blocks) = Cardinality(Partition(inp)))
+\* the blocks written are exactly the partition of the input by aligned window, one block per window
+ExactlyInput == pc = "done" => (Range(blocks) = Partition(inp) /\ Len(blocks) = Cardinality(Partition(inp)))
+\* the alignment of the code is the floor
+AlignIsFloor == \A a \in TsDom : AlignDown(a, D) = D * (a \div D)
 \* every block lies inside one aligned window, blocks are written in increasing time, none is empty
 Aligned == \A i \in 1..Len(blocks) :
              /\ blocks[i] # {}
@@ -151,8 +154,8 @@ ByWindow(S, w) == IF w >= WPos THEN <<>>
 Rec == [in |-> SetToSeq(inp), missing |-> missing, rejected |-> pc = "rejected",
         want |-> IF pc = "rejected" THEN <<>> ELSE ByWindow(inp, 0 - WNeg),      \* what C50 demands
         got  |-> [i \in 1..Len(blocks) |-> SetToSeq(blocks[i])],                   \* what the transcription does
-        legal |-> IF pc = "rejected" \/ Range(blocks) = Partition(inp) THEN "ok" ELSE "negative-timestamps-dropped",
-        cl |-> <<pc, Cardinality(inp), Cardinality(WindowsOf(inp)), KF_C50_1,
+        legal |-> IF pc = "rejected" \/ Range(blocks) = Partition(inp) THEN "ok" ELSE "transcription-deviates",
+        cl |-> <<pc, Cardinality(inp), Cardinality(WindowsOf(inp)), NegativeUnaligned,
                  \E x \in inp : x.ts < 0, \E x \in inp : x.ts % D = 0, \E x \in inp : x.ts % D = D - 1,
                  \E x \in inp : x.v \notin {"1", "2"}, Cardinality({x.s : x \in inp}),
                  \* an empty window between two populated ones (the nextSampleTs skip)
